@@ -52,6 +52,15 @@ CLAIMED["C13"] = dict(cat="other", technique="exhaustive option-table analysis (
    note="Trusted: clang front end, isa-extract, documented boost::program_options semantics (not analysed). Three genuine defects repaired "
         "(alpha0 substitution, precision, BunchCurrent), two recorded as known findings (ForceOpenGLVersion type, run_anyway skipped).",
    ref="DESIGN.md §3 C13")
+CLAIMED["C20"] = dict(cat="other", technique="option-table analysis plus a finite model of boost store/notify instantiated with the extracted table; ordering/dominance on the CFGs of parse() and main()",
+   text="Decides for every declared option: the command line is stored before the config file into the same map (boost: first store wins, defaults last), "
+        "nothing but store/notify and the recognised alias idiom writes the map or a bound field, each legacy alias binds exactly its primary's field and "
+        "type without a default and - on a four-row truth table per alias evaluated on boost's documented store/notify semantics - yields the specified "
+        "precedence, compatibility-only options bind fields nothing reads, command-line and file declarations agree, and parse errors / a missing or "
+        "unreadable config file end the program with a message before any simulation object is built. Exhaustive over the table (72 declarations).",
+   note="Trusted: documented boost::program_options semantics (store keeps non-defaulted entries; notify runs notifiers in key order). "
+        "Three known findings: a legacy alias in the config file beats the command line (RFVoltage, SyncFreq, steps).",
+   ref="DESIGN.md §3 C20")
 NOT_YET = "check not built yet in this round (static rule designed in DESIGN.md §3, not implemented)"
 NA = {}
 
